@@ -51,6 +51,7 @@ type Task struct {
 	prio     int
 	held     []heldLock
 	Steps    int
+	spawnStep int
 }
 
 type heldLock struct {
@@ -373,6 +374,7 @@ type Spawned struct {
 	id   string
 	site int
 	cls  string
+	step int
 }
 
 // Spawn is called by the parent immediately before a go statement.
@@ -384,7 +386,7 @@ func Spawn(site int) *Spawned {
 	t := s.me(site)
 	s.mu.Lock()
 	t.children++
-	h := &Spawned{s: s, id: fmt.Sprintf("%s.%d", t.ID, t.children), site: site}
+	h := &Spawned{s: s, id: fmt.Sprintf("%s.%d", t.ID, t.children), site: site, step: s.Step}
 	s.mu.Unlock()
 	return h
 }
@@ -396,7 +398,7 @@ func Born(h *Spawned) {
 	}
 	s := h.s
 	g := goid()
-	t := &Task{ID: h.id, Class: h.cls, goid: g, resume: make(chan int, 1), state: stRunning}
+	t := &Task{ID: h.id, Class: h.cls, goid: g, resume: make(chan int, 1), state: stRunning, spawnStep: h.step}
 	s.mu.Lock()
 	s.tasks[g] = t
 	s.all = append(s.all, t)
@@ -750,4 +752,49 @@ func (s *Sim) Shutdown() {
 		default:
 		}
 	}
+}
+
+// TaskID returns the scheduler id of the calling goroutine ("" if unknown).
+func TaskID() string {
+	s := cur()
+	if s == nil {
+		return ""
+	}
+	g := goid()
+	s.mu.Lock()
+	defer s.mu.Unlock()
+	if t := s.tasks[g]; t != nil {
+		return t.ID
+	}
+	return ""
+}
+
+// SetClass labels the calling task.
+func SetClass(class string) {
+	s := cur()
+	if s == nil {
+		return
+	}
+	g := goid()
+	s.mu.Lock()
+	if t := s.tasks[g]; t != nil {
+		t.Class = class
+	}
+	s.mu.Unlock()
+}
+
+// SpawnStep returns the scheduler step at which the calling task's go
+// statement ran (-1 if unknown).
+func SpawnStep() int {
+	s := cur()
+	if s == nil {
+		return -1
+	}
+	g := goid()
+	s.mu.Lock()
+	defer s.mu.Unlock()
+	if t := s.tasks[g]; t != nil {
+		return t.spawnStep
+	}
+	return -1
 }
